@@ -235,6 +235,16 @@ def _run_with_bins(res, tier, seed, priv):
         res.violation("stopper-panics-or-deadlocks",
                       "free-running history: the Stopper panicked (%s) or never reported itself stopped (hang=%s)" % (c.get("Panics"), c.get("Hang")),
                       {"kind": "failing-input", "mode": "free", "n_failing_cases": len(bad_free), "input": c})
+    # 1b. the OnPanic handler of a panicking limited task runs after the task gave back its slot and was uncounted
+    hp = csum.get("handler_probe")
+    res.coverage["handler_probe"] = hp
+    if hp is not None and not res.violations and (hp.get("start_error") or not hp.get("ran") or hp.get("sem_len_in_handler") != 0
+                                                  or hp.get("num_tasks_in_handler") != 0 or not hp.get("quiesce_from_handler_returned")):
+        res.violation("slot-or-task-count-held-while-the-panic-handler-runs",
+                      "a limited task on a one-slot semaphore panics: when the Stopper's OnPanic handler runs the body is over, yet the slot is still taken / the task still counted / a Quiesce from the handler does not return: %s" % json.dumps(hp),
+                      {"kind": "failing-input", "mode": "probe", "input": hp,
+                       "replay": "harness/c15 handlerProbe(): NewStopper(OnPanic(h)); RunLimitedAsyncTask(sem of capacity 1, body panics); h samples len(sem), NumTasks(), calls Quiesce",
+                       "expected": "len(sem) = 0, NumTasks() = 0, Quiesce returns (c15 semaphore held exactly while running; tasks drained)"})
     # 2. the race detector
     if rrc != 0 or "DATA RACE" in ro:
         if "DATA RACE" in ro or "WaitGroup misuse" in ro or "WaitGroup is reused" in ro:
